@@ -43,6 +43,7 @@ def run(tier, seed):
         ("plain", 2, [1, 2, 3], False, False),
         ("plain", 1, [1, 2], True, True),
         ("heads", 2, [1, 2], False, True),
+        ("tailf", 2, [1], True, False),          # input fed line by line, flush per record: invariant TailF
     ]
     if thorough:
         mc_plan += [
@@ -81,6 +82,12 @@ def run(tier, seed):
                             "note": "self-test: pre-fix design must deadlock"})
     if r.violated != "deadlock":
         raise vlib.Inconclusive("self-test failed: blocking done-sends did not deadlock in the model")
+    r = pipeline.run_mc("tailf", 1, [2], invariants="TailFAnyBatch", timeout=600)
+    cov["tlc_runs"].append({"module": "MCPipeline", "family": "tailf", "batch_sizes": [2], "invariant": "TailFAnyBatch",
+                            "distinct_states": r.distinct, "result": r.violated or "no error",
+                            "note": "self-test: with batch size 2 the tail -f claim must fail in the model"})
+    if r.violated != "TailFAnyBatch":
+        raise vlib.Inconclusive("self-test failed: the tail -f claim is not sensitive to the batch size in the model")
 
     # ---- 2. the same configurations on the real binary (B3) ----------------------------------
     plan = [("plain", 2, [1, 2, 3], True), ("heads", 2, [1, 2, 3], True), ("seqgen", 2, [1], True),
